@@ -307,6 +307,7 @@ static void exhaustiveCase(uint64_t idx, CaseResult &r, int costValues) {
 
 int main(int argc, char **argv) {
   std::vector<vf::Part> parts;
+  parts.push_back(vf::threaded("c13.threads", [](uint64_t, Rng &rng, CaseResult &r) { randomCase(rng, r); }, 4, 25, 120));
   parts.push_back({"c13.random", [](uint64_t, Rng &rng, CaseResult &r) { randomCase(rng, r); }, 6});
   parts.push_back({"c13.cascade", [](uint64_t, Rng &rng, CaseResult &r) { randomCase(rng, r, true); }, 6});
   parts.push_back({"c13.nearfull", [](uint64_t, Rng &rng, CaseResult &r) { nearFullCase(rng, r); }, 5});
